@@ -143,7 +143,8 @@ Section Level.
       set (a1 := upd msg E a (Some j) (next msg E a) e' (clock msg E a + dur d)%Z [EvRead msg j r]) in *.
       set (b1 := upd msg E b (Some j) (next msg E a) e' (clock msg E a + dur d)%Z [EvRead msg j r]) in *.
       destruct r as [bs| |].
-      + destruct ((32 * (length (pend ++ bs) / 32)) =? 0)%nat; [apply IH; exact H1|].
+      + destruct (length bs =? 0)%nat; [split; [reflexivity|]; split; [reflexivity|exact H1]|].
+        destruct ((32 * (length (pend ++ bs) / 32)) =? 0)%nat; [apply IH; exact H1|].
         destruct (dec (div s) (firstn (32 * (length (pend ++ bs) / 32)) (pend ++ bs))) as [pt iv'].
         destruct (decode_step buf pt) as [[[ms|]|] buf'].
         * split; [reflexivity|]. split; [reflexivity|]. apply R_log, R_log. exact H1.
